@@ -41,6 +41,13 @@ func captureWrites(ev *eval.Evaluator) *[]eval.Str {
 		}
 		return eval.Tuple{eval.K(0), eval.Nil{}}
 	}
+	ev.Extern["fmt.Fprintf"] = func(ev *eval.Evaluator, pos token.Pos, recv eval.Value, args []eval.Value) eval.Value {
+		if o, ok := unref(args[0]).(eval.Opaque); ok && strings.Contains(o.Why, "Stderr") {
+			return eval.Tuple{eval.K(0), eval.Nil{}}
+		}
+		out = append(out, formatVerbs(args[1], args[2:]))
+		return eval.Tuple{eval.K(0), eval.Nil{}}
+	}
 	for _, name := range []string{"fmt.Fprintln", "fmt.Fprint"} {
 		nl := name == "fmt.Fprintln"
 		ev.Extern[name] = func(ev *eval.Evaluator, pos token.Pos, recv eval.Value, args []eval.Value) eval.Value {
@@ -644,4 +651,67 @@ func c10Concrete(c *core.Ctx, fn *types.Func, tabs *Tables) bool {
 	c.Count("getlines_rows_evaluated", n)
 	c.Ob(key, len(bad) == 0, fn.Pos(), "%s", first(bad, 3))
 	return len(bad) == 0
+}
+
+// formatVerbs models fmt's formatting for the verbs the repository's writers could use (%s %d %v %%): with a constant
+// format and constant operands the text is fmt's own; symbolic operands are spliced in symbolically; a format that is
+// not a constant (data used as the format string) stays an opaque symbol, which no expected text equals.
+func formatVerbs(format eval.Value, ops []eval.Value) eval.Str {
+	f, ok := format.(eval.Str)
+	if !ok || !f.IsConst() {
+		return eval.SSym("format(" + eval.Show(format) + ")")
+	}
+	allConst := true
+	var goArgs []interface{}
+	for _, o := range ops {
+		switch x := o.(type) {
+		case eval.Str:
+			if !x.IsConst() {
+				allConst = false
+			}
+			goArgs = append(goArgs, x.Const())
+		case eval.Lin:
+			if !x.IsConst() {
+				allConst = false
+			}
+			goArgs = append(goArgs, int(x.C))
+		case bool:
+			goArgs = append(goArgs, x)
+		default:
+			allConst = false
+		}
+	}
+	if allConst {
+		return eval.S(fmt.Sprintf(f.Const(), goArgs...))
+	}
+	out := eval.S("")
+	text := f.Const()
+	k := 0
+	for i := 0; i < len(text); i++ {
+		if text[i] != '%' || i+1 >= len(text) {
+			out = out.Concat(eval.S(string(text[i])))
+			continue
+		}
+		i++
+		switch text[i] {
+		case '%':
+			out = out.Concat(eval.S("%"))
+		case 's', 'd', 'v':
+			if k >= len(ops) {
+				return eval.SSym("format: missing operand")
+			}
+			switch x := ops[k].(type) {
+			case eval.Str:
+				out = out.Concat(x)
+			case eval.Lin:
+				out = out.Concat(itoa(x))
+			default:
+				out = out.Concat(eval.SSym(eval.Show(x)))
+			}
+			k++
+		default:
+			return eval.SSym("format: verb %" + string(text[i]))
+		}
+	}
+	return out
 }
